@@ -126,12 +126,17 @@ def check(case):
                         want += n
                         outstanding[key] = outstanding.get(key, 0) + n
                     elif op == "rem":
-                        n = min(n, outstanding.get(key, 0))
-                        if n > 0:
-                            got_before = obj.elements_added
+                        if kind == "cms" and case["seed"] % 3 == 0:
+                            # the sketch's total is a signed net count: removing what was never added takes it below 0
                             obj.remove(key, n)
                             want -= n
-                            outstanding[key] -= n
+                        else:
+                            n = min(n, outstanding.get(key, 0))
+                            if n > 0:
+                                got_before = obj.elements_added
+                                obj.remove(key, n)
+                                want -= n
+                                outstanding[key] -= n
                     elif op == "reload":
                         obj = type(obj).frombytes(bytes(obj))
                     if obj.elements_added != want:
